@@ -390,8 +390,8 @@ theorem api_agree_concrete (P : Programs) (code : CodeB) (input : List Nat) (rtl
     enumString P filter rtl n = iterate P.full rtl n :=
   api_agree P _ rtl _ hP hO (fun hr => concrete_filter_sound code input (P.full.attempt 0) (hF hr))
 
-/-- `(a)(b)\1` on the string "x\xffaba" — runes `x`, U+FFFD, `a`, `b`, `a` — hmm: the engine of `xabaPrograms` runs
-    on "xaba"; the byte string below decodes to those four runes with a two-byte `é`-free ASCII text -/
+/-- the string "xaba" as bytes (the programs `xabaPrograms` of part B run on its four runes), and the record of a
+    pattern whose matches all start with "ab" and are at least 3 runes long -/
 def cfInput : List Nat := [120, 97, 98, 97]
 def cfCode : CodeB := { opts := some { mode := .leadingStringLtr, minLen := 3, leadingPrefix := [97, 98] } }
 
